@@ -54,6 +54,10 @@ type Node struct {
 	NUMAMemUsed []int64 `json:"numa_mem_used,omitempty"` // per NUMA node, <= cap
 	MemCap      int64   `json:"mem_cap"`
 	MemUsed     int64   `json:"mem_used"`
+	// UsageNoNUMA: the usage half of the record carries no core-to-NUMA-node table (the capacity half
+	// is the authority; usage records rewritten by the resource repair, or written before the
+	// topology was configured through set-node, have none)
+	UsageNoNUMA bool `json:"usage_no_numa,omitempty"`
 }
 
 func id(i int) string { return strconv.Itoa(i) }
@@ -84,7 +88,9 @@ func (n Node) resources(sb int) (capacity, usage *cpumemtypes.NodeResource) {
 		used += c.Used
 		if n.NUMA {
 			capacity.NUMA[id(i)] = id(c.NUMA)
-			usage.NUMA[id(i)] = id(c.NUMA)
+			if !n.UsageNoNUMA {
+				usage.NUMA[id(i)] = id(c.NUMA)
+			}
 		}
 	}
 	usage.CPU = float64(used) / float64(sb)
@@ -338,6 +344,7 @@ func genNode(t *rapid.T, sb int, o nodeOpts) Node {
 	share := uni(t, "share", 1, 3*sb) // a node added with a non-default share
 	useKind := vt.Pct(t, "useKind")
 	n.NUMA = vt.Chance(t, "numa", 45)
+	n.UsageNoNUMA = n.NUMA && vt.Chance(t, "usageNoNUMA", 25)
 	numaNodes := 2
 	if n.NUMA && vt.Chance(t, "numa3", 15) {
 		numaNodes = 3
